@@ -79,6 +79,38 @@ def check(case):
         os.unlink(path)
 
 
+def check_repeated(case):
+    """the SAME directive expanded several times (loop body / macro body) with a delta that differs per expansion"""
+    raw = build_file([tuple(r) for r in case["recs"]])
+    fd, path = tempfile.mkstemp(suffix=".ips", prefix="vfC13r")
+    os.write(fd, raw)
+    os.close(fd)
+    try:
+        records = ips_format.parse(raw)[0]
+        deltas = case["deltas"]
+        if case["how"] == "for":
+            step = deltas[1] - deltas[0] if len(deltas) > 1 else 0
+            src = f"*=0x018000\n.db 1\n.for k := 0, {len(deltas)} {{\n.include_ips '{path}', {deltas[0]} + k * {step}\n}}\n.db 2\n"
+        else:
+            src = f"*=0x018000\n.db 1\n.macro patch_at(d) {{\n.include_ips '{path}', d\n}}\n" + "".join(f"patch_at({d})\n" for d in deltas) + ".db 2\n"
+        res = assemble(src)
+        if res["status"] != "ok":
+            return f"program rejected: {res['error'] or res['exc']}"
+        want = [(off + d, payload) for d in deltas for off, payload in records]
+        got = [(a, b) for a, b in res["blocks"] if (a, b) != (0x8000, b"\x01\x02")]
+        if got != want:
+            return f"expansions re-emit {[(hex(a), len(b)) for a, b in got][:8]}, expected {[(hex(a), len(b)) for a, b in want][:8]}"
+        return None
+    finally:
+        os.unlink(path)
+
+
+def gen_repeated(tier, rng):
+    for how in ("for", "macro"):
+        yield {"repeated": True, "how": how, "recs": [["plain", 0x1234, 5, 7]], "deltas": [0, 0x400, 0x800, 0xC00]}
+        yield {"repeated": True, "how": how, "recs": [["plain", 0x100, 3, 1], ["rle", 0x200, 9, 0x55]], "deltas": [0x200, 0x10200] if how == "for" else [0x200, 0, 0x10000]}
+
+
 def gen(tier, rng):
     def plain(off, n):
         return ["plain", off, n, rng.randrange(256)]
@@ -118,11 +150,11 @@ def gen(tier, rng):
 
 def run(tier, seed):
     rng = random.Random(seed)
-    cases = list(gen(tier, rng))
+    cases = list(gen(tier, rng)) + list(gen_repeated(tier, rng))
     failures = []
     kinds = set()
     for c in cases:
-        f = check(c)
+        f = check_repeated(c) if c.get("repeated") else check(c)
         if f:
             kind = f.split(":")[0][:40] + ("/rle" if any(r[0] == "rle" for r in c["recs"]) else "")
             if kind in kinds or len(failures) >= 10:
@@ -130,14 +162,14 @@ def run(tier, seed):
             kinds.add(kind)
             failures.append({"ident": "bounded/include-ips" + ("/rle" if any(r[0] == "rle" for r in c["recs"]) else "/plain"), "script": "b_C13.py", "payload": c, "observed": f})
     return {"evaluations": len(cases), "distinct_nontrivial": len({str(c) for c in cases}),
-            "rule": "IPS files built from record lists (plain, run-length, max-length, adjacent, overlapping; 0-6 records) incl. lengths placing EOF "
+            "rule": "the same directive expanded several times (loop / macro) with a per-expansion delta; IPS files built from record lists (plain, run-length, max-length, adjacent, overlapping; 0-6 records) incl. lengths placing EOF "
                     "across the 8 KiB buffer edge, malformed variants (no header, truncated at 4 points), deltas of both signs, directive at several "
                     "placements; real pipeline vs independent reader; each distinct",
             "samples": cases[1:3], "failures": failures}
 
 
 def replay(payload):
-    f = check(payload)
+    f = check_repeated(payload) if payload.get("repeated") else check(payload)
     return {"failed": f is not None, "observed": f}
 
 
